@@ -112,6 +112,7 @@ def plan(tier, seed):
 
 
 def run_shard(shard, col):
+    U.PATTERN_FLAGS = True  # compiled patterns with flags are valid values of re.Pattern (this worker process only)
     progs.drive_programs(col, seed=shard["seed"], n=shard["n"],
                          spec_strategy=U.repeated_generic_specs() if shard.get("repeated") else U.root_specs(max_depth=shard["depth"], mods=3 if shard.get("adversarial") else 2, wide_unions=False, adversarial=bool(shard.get("adversarial"))),
                          per_program=per_program)
